@@ -217,6 +217,15 @@ class Check(PropertyCheck):
                 spec = (f"cu{i}_{d}", self.rng.choice(["list", "catch"]), 0, (spec,), None)
             out = sched.run_program(lambda: vm.call(spec), {}, self.rng, complete_prob=self.rng.choice([0.1, 0.5, 0.9]))
             runs.append((spec, out, None))
+        # seq items that are containers of lazy calls (seeded change C01d: only top-level Expression items evaluated)
+        for i in range(12 if self.tier == "quick" else 150):
+            kids = tuple(jobgen.gen_spec(self.rng, [], depth=self.rng.randint(0, 1), allow_nocse=False, twins=False,
+                                         allow_fail=self.rng.random() < 0.3) for _ in range(self.rng.randint(2, 4)))
+            spec = (f"sn{i}", "seqnest", 0, kids, None)
+            for d in range(self.rng.randint(0, 2)):
+                spec = (f"so{i}_{d}", self.rng.choice(["list", "catch", "seq"]), 0, (spec,), None)
+            out = sched.run_program(lambda: vm.call(spec), {}, self.rng, complete_prob=self.rng.choice([0.1, 0.5, 0.9]))
+            runs.append((spec, out, None))
         # the real executors (threads and processes, no controlled schedule): same reference result
         runs += self.real_executor_runs()
         nb += self.thread_sessions()
